@@ -154,10 +154,20 @@ class Recorder {
   void err(const std::string &s) { if ((int)errors.size() < error_cap) errors.push_back(s); }
   static std::string I(long long v) { return std::to_string(v); }
 
-  void line(const char *ev, const std::string &rest) {
-    if (!record_log) return;
-    log += ev; if (!rest.empty()) { log += ' '; log += rest; } log += '\n';
-  }
+  // transcript line builder: appends straight into `log` (no temporaries); ' ' separates fields
+  struct Ln {
+    std::string *s;
+    static int utoa(char *b, unsigned long long v) { char t[24]; int n = 0; do { t[n++] = (char)('0' + v % 10); v /= 10; } while (v); for (int i = 0; i < n; ++i) b[i] = t[n - 1 - i]; return n; }
+    void num(long long v) { char b[24]; int n = 0; unsigned long long u = (unsigned long long)v; if (v < 0) { b[n++] = '-'; u = 0 - u; } n += utoa(b + n, u); s->append(b, n); }
+    Ln &i(long long v) { if (s) { s->push_back(' '); num(v); } return *this; }
+    Ln &h(long long id) { if (s) { s->append(" #", 2); num(id); } return *this; }
+    Ln &to(long long id) { if (s) { s->append(" -> #", 5); num(id); } return *this; }
+    Ln &d(double v) { if (s) { s->push_back(' '); char b[64]; uint64_t u; std::memcpy(&u, &v, 8);
+                               int n = std::snprintf(b, sizeof b, "%.17g/%016llx", v, (unsigned long long)u); s->append(b, n); } return *this; }
+    Ln &t(const std::string &x) { if (s) { s->push_back(' '); s->append(x); } return *this; }
+    ~Ln() { if (s) s->push_back('\n'); }
+  };
+  Ln ln(const char *ev) { if (!record_log) return Ln{nullptr}; log += ev; return Ln{&log}; }
   // Every callback except the item callbacks of the open flat frame passes through here.
   void enter(const char *ev, bool is_header = false) {
     ++num_callbacks;
@@ -299,7 +309,7 @@ class Recorder {
         err(std::string("count:") + f->what + " announced " + I(f->expected) + " arguments, AddArg #" + I(f->got));
       if (record_model && f->node > 0 && f->got <= f->expected) nodes[f->node].args.push_back(id);
     }
-    line("AddArg", "#" + I(id));
+    ln("AddArg").h(id);
   }
   bool flat_is(long long serial, const char *ev) {
     if (flat_.k == F_NONE || flat_.serial != serial) {
@@ -319,7 +329,7 @@ class Recorder {
             I(flat_.got));
       if (record_model && flat_.item >= 0) { items[flat_.item].idx.push_back(var); items[flat_.item].val.push_back(coef); }
     }
-    line("AddTerm", I(var) + " " + dbl_bits(coef));
+    ln("AddTerm").i(var).d(coef);
   }
   void add_colsize(long long serial, int size) {
     ++num_callbacks; event_ptrs.insert("ColumnSize.Add");
@@ -331,7 +341,7 @@ class Recorder {
         err("count:OnColumnSizes expects " + I(flat_.expected) + " sizes, Add #" + I(flat_.got));
       if (record_model && flat_.item >= 0) items[flat_.item].idx.push_back(size);
     }
-    line("ColSize", I(size));
+    ln("ColSize").i(size);
   }
   void set_suffix_value(long long serial, int index, double v, bool is_int) {
     ++num_callbacks; event_ptrs.insert("SetValue");
@@ -344,7 +354,7 @@ class Recorder {
             I(flat_.got));
       if (record_model && flat_.item >= 0) { items[flat_.item].idx.push_back(index); items[flat_.item].val.push_back(v); }
     }
-    line("SetValue", I(index) + " " + (is_int ? I((long long)v) : dbl_bits(v)));
+    if (is_int) ln("SetValue").i(index).i((long long)v); else ln("SetValue").i(index).d(v);
   }
   void pl_item(long long serial, bool slope, double v) {
     ++num_callbacks; event_ptrs.insert(slope ? "AddSlope" : "AddBreakpoint");
@@ -356,11 +366,11 @@ class Recorder {
       bool want_slope = (f->got % 2) == 0;
       if (want_slope != slope) err(std::string("order:") + ev + " out of slope/breakpoint alternation");
       ++f->got;
-      if (f->got > 2 * f->expected + 1)
+      if (f->got > 2 * (long long)f->expected + 1)
         err("count:BeginPLTerm announced " + I(f->expected) + " breakpoints, item #" + I(f->got));
       if (record_model && f->node > 0 && f->got <= 2 * (long long)f->expected + 1) nodes[f->node].nums.push_back(v);
     }
-    line(ev, dbl_bits(v));
+    ln(ev).d(v);
   }
   ArgHandler begin(const char *ev, char cls, int kind, int n, char argcls, int a = 0, int preset = 0) {
     check_count(ev, n);
@@ -386,7 +396,7 @@ class Recorder {
     } else {
       id = make('N', ev, -1).id;   // keep going with a fresh node
     }
-    line(ev, "-> #" + I(id));
+    ln(ev).to(id);
     return Expr(id);
   }
 
@@ -402,7 +412,7 @@ class Recorder {
         h.num_common_exprs_in_single_cons < 0 || h.num_common_exprs_in_single_objs < 0)
       err("value:OnHeader negative dimension");
     if (record_log) {
-      char b[512];
+      char b[1024];
       std::snprintf(b, sizeof b,
           "fmt=%d vars=%d cons=%d objs=%d ranges=%d eqns=%d lcons=%d nlc=%d nlo=%d compl=%d nlcompl=%d cdi=%d "
           "cvnz=%d nnc=%d lnc=%d nlvc=%d nlvo=%d nlvb=%d lnv=%d funcs=%d arith=%d flags=%d bin=%d int=%d nlib=%d "
@@ -420,7 +430,7 @@ class Recorder {
       std::string s = b;
       for (int i = 0; i < h.num_ampl_options && i < mp::MAX_AMPL_OPTIONS; ++i) s += " o" + I(h.ampl_options[i]);
       s += " vbtol=" + dbl_bits(h.ampl_vbtol);
-      line("OnHeader", s);
+      ln("OnHeader").t(s);
     }
   }
   bool NeedObj(int) const { return true; }
@@ -432,7 +442,7 @@ class Recorder {
     int id = use("OnObj", e, "NC", true);
     top_level("OnObj");
     if (record_model) item("OnObj", index, 0, (int)type, id);
-    line("OnObj", I(index) + " " + I((int)type) + " #" + I(id));
+    ln("OnObj").i(index).i((int)type).h(id);
   }
   void OnAlgebraicCon(int index, NumericExpr e) {
     enter("OnAlgebraicCon");
@@ -440,7 +450,7 @@ class Recorder {
     int id = use("OnAlgebraicCon", e, "NC", true);
     top_level("OnAlgebraicCon");
     if (record_model) item("OnAlgebraicCon", index, 0, 0, id);
-    line("OnAlgebraicCon", I(index) + " #" + I(id));
+    ln("OnAlgebraicCon").i(index).h(id);
   }
   void OnLogicalCon(int index, LogicalExpr e) {
     enter("OnLogicalCon");
@@ -448,7 +458,7 @@ class Recorder {
     int id = use("OnLogicalCon", e, "L");
     top_level("OnLogicalCon");
     if (record_model) item("OnLogicalCon", index, 0, 0, id);
-    line("OnLogicalCon", I(index) + " #" + I(id));
+    ln("OnLogicalCon").i(index).h(id);
   }
   LinearExprHandler BeginCommonExpr(int index, int num_linear_terms) {
     enter("BeginCommonExpr");
@@ -460,7 +470,7 @@ class Recorder {
     int it = -1;
     if (record_model) { item("CommonExpr", index, num_linear_terms); it = (int)items.size() - 1; }
     flat_ = Flat{F_LINCE, ++serial_, num_linear_terms, 0, nvars(), it};
-    line("BeginCommonExpr", I(index) + " " + I(num_linear_terms));
+    ln("BeginCommonExpr").i(index).i(num_linear_terms);
     return LinearExprHandler(this, flat_.serial);
   }
   void EndCommonExpr(int index, NumericExpr e, int position) {
@@ -476,7 +486,7 @@ class Recorder {
     }
     top_level("EndCommonExpr");
     if (record_model) item("EndCommonExpr", index, position, 0, id);
-    line("EndCommonExpr", I(index) + " #" + I(id) + " " + I(position));
+    ln("EndCommonExpr").i(index).h(id).i(position);
   }
   void OnComplementarity(int con_index, int var_index, mp::ComplInfo info) {
     enter("OnComplementarity");
@@ -484,8 +494,7 @@ class Recorder {
     check_index("OnComplementarity", "variable", var_index, nvars());
     top_level("OnComplementarity");
     if (record_model) item("OnComplementarity", con_index, var_index, 0, 0, info.con_lb(), info.con_ub());
-    line("OnComplementarity", I(con_index) + " " + I(var_index) + " " + dbl_bits(info.con_lb()) + " " +
-         dbl_bits(info.con_ub()));
+    ln("OnComplementarity").i(con_index).i(var_index).d(info.con_lb()).d(info.con_ub());
   }
   LinearObjHandler OnLinearObjExpr(int index, int n) {
     enter("OnLinearObjExpr");
@@ -495,7 +504,7 @@ class Recorder {
     int it = -1;
     if (record_model) { item("OnLinearObjExpr", index, n); it = (int)items.size() - 1; }
     flat_ = Flat{F_LINOBJ, ++serial_, n, 0, nvars(), it};
-    line("OnLinearObjExpr", I(index) + " " + I(n));
+    ln("OnLinearObjExpr").i(index).i(n);
     return LinearObjHandler(this, flat_.serial);
   }
   LinearConHandler OnLinearConExpr(int index, int n) {
@@ -506,7 +515,7 @@ class Recorder {
     int it = -1;
     if (record_model) { item("OnLinearConExpr", index, n); it = (int)items.size() - 1; }
     flat_ = Flat{F_LINCON, ++serial_, n, 0, nvars(), it};
-    line("OnLinearConExpr", I(index) + " " + I(n));
+    ln("OnLinearConExpr").i(index).i(n);
     return LinearConHandler(this, flat_.serial);
   }
   void OnVarBounds(int index, double lb, double ub) {
@@ -514,28 +523,28 @@ class Recorder {
     check_index("OnVarBounds", "variable", index, nvars());
     top_level("OnVarBounds");
     if (record_model) item("OnVarBounds", index, 0, 0, 0, lb, ub);
-    line("OnVarBounds", I(index) + " " + dbl_bits(lb) + " " + dbl_bits(ub));
+    ln("OnVarBounds").i(index).d(lb).d(ub);
   }
   void OnConBounds(int index, double lb, double ub) {
     enter("OnConBounds");
     check_index("OnConBounds", "constraint", index, header.num_algebraic_cons);
     top_level("OnConBounds");
     if (record_model) item("OnConBounds", index, 0, 0, 0, lb, ub);
-    line("OnConBounds", I(index) + " " + dbl_bits(lb) + " " + dbl_bits(ub));
+    ln("OnConBounds").i(index).d(lb).d(ub);
   }
   void OnInitialValue(int index, double v) {
     enter("OnInitialValue");
     check_index("OnInitialValue", "variable", index, nvars());
     top_level("OnInitialValue");
     if (record_model) item("OnInitialValue", index, 0, 0, 0, v, v);
-    line("OnInitialValue", I(index) + " " + dbl_bits(v));
+    ln("OnInitialValue").i(index).d(v);
   }
   void OnInitialDualValue(int index, double v) {
     enter("OnInitialDualValue");
     check_index("OnInitialDualValue", "constraint", index, header.num_algebraic_cons);
     top_level("OnInitialDualValue");
     if (record_model) item("OnInitialDualValue", index, 0, 0, 0, v, v);
-    line("OnInitialDualValue", I(index) + " " + dbl_bits(v));
+    ln("OnInitialDualValue").i(index).d(v);
   }
   ColumnSizeHandler OnColumnSizes() {
     enter("OnColumnSizes");
@@ -543,7 +552,7 @@ class Recorder {
     int it = -1;
     if (record_model) { item("OnColumnSizes", 0, nvars() - 1); it = (int)items.size() - 1; }
     flat_ = Flat{F_COLS, ++serial_, nvars() - 1, 0, 0, it};
-    line("OnColumnSizes", "");
+    ln("OnColumnSizes");
     return ColumnSizeHandler(this, flat_.serial);
   }
   void OnFunction(int index, fmt::StringRef name, int num_args, mp::func::Type type) {
@@ -552,7 +561,7 @@ class Recorder {
     if (strict_values && (int)type != 0 && (int)type != 1) err("value:OnFunction type " + I((int)type));
     top_level("OnFunction");
     if (record_model) { Item &i = item("OnFunction", index, num_args, (int)type); i.name.assign(name.data(), name.size()); }
-    line("OnFunction", I(index) + " " + esc(name) + " " + I(num_args) + " " + I((int)type));
+    ln("OnFunction").i(index).t(esc(name)).i(num_args).i((int)type);
   }
  private:
   long long suffix(const char *ev, FlatKind fk, fmt::StringRef name, mp::suf::Kind kind, int n) {
@@ -570,7 +579,7 @@ class Recorder {
     int it = -1;
     if (record_model) { Item &i = item(ev, 0, n, k); i.name.assign(name.data(), name.size()); it = (int)items.size() - 1; }
     flat_ = Flat{fk, ++serial_, n, 0, ub, it};
-    line(ev, esc(name) + " " + I(k) + " " + I(n));
+    ln(ev).t(esc(name)).i(k).i(n);
     return flat_.serial;
   }
  public:
@@ -585,21 +594,21 @@ class Recorder {
   NumericExpr OnNumber(double v) {
     enter("OnNumber");
     Expr e = make('N', "OnNumber", -1, 0, 0, v);
-    line("OnNumber", dbl_bits(v) + " -> #" + I(e.id));
+    ln("OnNumber").d(v).to(e.id);
     return e;
   }
   Reference OnVariableRef(int i) {
     enter("OnVariableRef");
     check_index("OnVariableRef", "variable", i, nvars());
     Expr e = make('N', "OnVariableRef", -1, i);
-    line("OnVariableRef", I(i) + " -> #" + I(e.id));
+    ln("OnVariableRef").i(i).to(e.id);
     return e;
   }
   Reference OnCommonExprRef(int i) {
     enter("OnCommonExprRef");
     check_index("OnCommonExprRef", "common expression", i, ncexprs());
     Expr e = make('N', "OnCommonExprRef", -1, i);
-    line("OnCommonExprRef", I(i) + " -> #" + I(e.id));
+    ln("OnCommonExprRef").i(i).to(e.id);
     return e;
   }
   NumericExpr OnUnary(mp::expr::Kind k, NumericExpr a) {
@@ -607,7 +616,7 @@ class Recorder {
     int x = use("OnUnary", a, "NC");
     Expr e = make('N', "OnUnary", (int)k);
     if (record_model) nodes[e.id].args = {x};
-    line("OnUnary", I((int)k) + " #" + I(x) + " -> #" + I(e.id));
+    ln("OnUnary").i((int)k).h(x).to(e.id);
     return e;
   }
   NumericExpr OnBinary(mp::expr::Kind k, NumericExpr a, NumericExpr b) {
@@ -615,7 +624,7 @@ class Recorder {
     int x = use("OnBinary", a, "NC"), y = use("OnBinary", b, "NC");
     Expr e = make('N', "OnBinary", (int)k);
     if (record_model) nodes[e.id].args = {x, y};
-    line("OnBinary", I((int)k) + " #" + I(x) + " #" + I(y) + " -> #" + I(e.id));
+    ln("OnBinary").i((int)k).h(x).h(y).to(e.id);
     return e;
   }
   NumericExpr OnIf(LogicalExpr c, NumericExpr t, NumericExpr f) {
@@ -623,7 +632,7 @@ class Recorder {
     int x = use("OnIf", c, "L"), y = use("OnIf", t, "NC"), z = use("OnIf", f, "NC");
     Expr e = make('N', "OnIf", -1);
     if (record_model) nodes[e.id].args = {x, y, z};
-    line("OnIf", "#" + I(x) + " #" + I(y) + " #" + I(z) + " -> #" + I(e.id));
+    ln("OnIf").h(x).h(y).h(z).to(e.id);
     return e;
   }
   PLTermHandler BeginPLTerm(int num_breakpoints) {
@@ -632,7 +641,7 @@ class Recorder {
     Expr e = make('N', "PLTerm", -1, 0, num_breakpoints);
     --live_; consumed_[e.id] = 1;
     long long s = push("BeginPLTerm", num_breakpoints, e.id);
-    line("BeginPLTerm", I(num_breakpoints));
+    ln("BeginPLTerm").i(num_breakpoints);
     return PLTermHandler(this, s);
   }
   NumericExpr EndPLTerm(PLTermHandler h, Reference arg) {
@@ -651,31 +660,31 @@ class Recorder {
       consumed_[id] = 0; ++live_;
       if (record_model) nodes[id].args = {x};
     } else id = make('N', "EndPLTerm", -1).id;
-    line("EndPLTerm", "#" + I(x) + " -> #" + I(id));
+    ln("EndPLTerm").h(x).to(id);
     return Expr(id);
   }
   CallArgHandler BeginCall(int func_index, int n) {
     enter("BeginCall");
     check_index("BeginCall", "function", func_index, header.num_funcs);
-    line("BeginCall", I(func_index) + " " + I(n));
+    ln("BeginCall").i(func_index).i(n);
     return begin("BeginCall", 'N', -1, n, 'S', func_index);
   }
   NumericExpr EndCall(CallArgHandler h) { enter("EndCall"); return end("EndCall", "BeginCall", h); }
   VarArgHandler BeginVarArg(mp::expr::Kind k, int n) {
     enter("BeginVarArg");
-    line("BeginVarArg", I((int)k) + " " + I(n));
+    ln("BeginVarArg").i((int)k).i(n);
     return begin("BeginVarArg", 'N', (int)k, n, 'N');
   }
   NumericExpr EndVarArg(VarArgHandler h) { enter("EndVarArg"); return end("EndVarArg", "BeginVarArg", h); }
   NumericArgHandler BeginSum(int n) {
     enter("BeginSum");
-    line("BeginSum", I(n));
+    ln("BeginSum").i(n);
     return begin("BeginSum", 'N', (int)mp::expr::SUM, n, 'N');
   }
   NumericExpr EndSum(NumericArgHandler h) { enter("EndSum"); return end("EndSum", "BeginSum", h); }
   CountArgHandler BeginCount(int n) {
     enter("BeginCount");
-    line("BeginCount", I(n));
+    ln("BeginCount").i(n);
     return begin("BeginCount", 'C', (int)mp::expr::COUNT, n, 'L');
   }
   CountExpr EndCount(CountArgHandler h) { enter("EndCount"); return end("EndCount", "BeginCount", h); }
@@ -683,7 +692,7 @@ class Recorder {
     enter("BeginNumberOf");
     int x = use("BeginNumberOf", arg0, "NC");
     if (strict_values && n < 1) err("value:BeginNumberOf count " + I(n) + " < 1");
-    line("BeginNumberOf", I(n) + " #" + I(x));
+    ln("BeginNumberOf").i(n).h(x);
     ArgHandler h = begin("BeginNumberOf", 'N', (int)mp::expr::NUMBEROF, n, 'N', 0, 1);
     if (record_model) nodes[stack_.back().node].args.push_back(x);
     return h;
@@ -693,7 +702,7 @@ class Recorder {
     enter("BeginSymbolicNumberOf");
     int x = use("BeginSymbolicNumberOf", arg0, "NCS");
     if (strict_values && n < 1) err("value:BeginSymbolicNumberOf count " + I(n) + " < 1");
-    line("BeginSymbolicNumberOf", I(n) + " #" + I(x));
+    ln("BeginSymbolicNumberOf").i(n).h(x);
     ArgHandler h = begin("BeginSymbolicNumberOf", 'N', (int)mp::expr::NUMBEROF_SYM, n, 'S', 0, 1);
     if (record_model) nodes[stack_.back().node].args.push_back(x);
     return h;
@@ -704,7 +713,7 @@ class Recorder {
   LogicalExpr OnBool(bool v) {
     enter("OnBool");
     Expr e = make('L', "OnBool", -1, v ? 1 : 0, 0, v ? 1 : 0);
-    line("OnBool", I(v ? 1 : 0) + " -> #" + I(e.id));
+    ln("OnBool").i(v ? 1 : 0).to(e.id);
     return e;
   }
   LogicalExpr OnNot(LogicalExpr a) {
@@ -712,7 +721,7 @@ class Recorder {
     int x = use("OnNot", a, "L");
     Expr e = make('L', "OnNot", (int)mp::expr::NOT);
     if (record_model) nodes[e.id].args = {x};
-    line("OnNot", "#" + I(x) + " -> #" + I(e.id));
+    ln("OnNot").h(x).to(e.id);
     return e;
   }
   LogicalExpr OnBinaryLogical(mp::expr::Kind k, LogicalExpr a, LogicalExpr b) {
@@ -720,7 +729,7 @@ class Recorder {
     int x = use("OnBinaryLogical", a, "L"), y = use("OnBinaryLogical", b, "L");
     Expr e = make('L', "OnBinaryLogical", (int)k);
     if (record_model) nodes[e.id].args = {x, y};
-    line("OnBinaryLogical", I((int)k) + " #" + I(x) + " #" + I(y) + " -> #" + I(e.id));
+    ln("OnBinaryLogical").i((int)k).h(x).h(y).to(e.id);
     return e;
   }
   LogicalExpr OnRelational(mp::expr::Kind k, NumericExpr a, NumericExpr b) {
@@ -728,7 +737,7 @@ class Recorder {
     int x = use("OnRelational", a, "NC"), y = use("OnRelational", b, "NC");
     Expr e = make('L', "OnRelational", (int)k);
     if (record_model) nodes[e.id].args = {x, y};
-    line("OnRelational", I((int)k) + " #" + I(x) + " #" + I(y) + " -> #" + I(e.id));
+    ln("OnRelational").i((int)k).h(x).h(y).to(e.id);
     return e;
   }
   LogicalExpr OnLogicalCount(mp::expr::Kind k, NumericExpr a, CountExpr b) {
@@ -736,7 +745,7 @@ class Recorder {
     int x = use("OnLogicalCount", a, "NC"), y = use("OnLogicalCount", b, "C");
     Expr e = make('L', "OnLogicalCount", (int)k);
     if (record_model) nodes[e.id].args = {x, y};
-    line("OnLogicalCount", I((int)k) + " #" + I(x) + " #" + I(y) + " -> #" + I(e.id));
+    ln("OnLogicalCount").i((int)k).h(x).h(y).to(e.id);
     return e;
   }
   LogicalExpr OnImplication(LogicalExpr c, LogicalExpr t, LogicalExpr f) {
@@ -744,12 +753,12 @@ class Recorder {
     int x = use("OnImplication", c, "L"), y = use("OnImplication", t, "L"), z = use("OnImplication", f, "L");
     Expr e = make('L', "OnImplication", (int)mp::expr::IMPLICATION);
     if (record_model) nodes[e.id].args = {x, y, z};
-    line("OnImplication", "#" + I(x) + " #" + I(y) + " #" + I(z) + " -> #" + I(e.id));
+    ln("OnImplication").h(x).h(y).h(z).to(e.id);
     return e;
   }
   LogicalArgHandler BeginIteratedLogical(mp::expr::Kind k, int n) {
     enter("BeginIteratedLogical");
-    line("BeginIteratedLogical", I((int)k) + " " + I(n));
+    ln("BeginIteratedLogical").i((int)k).i(n);
     return begin("BeginIteratedLogical", 'L', (int)k, n, 'L');
   }
   LogicalExpr EndIteratedLogical(LogicalArgHandler h) {
@@ -757,7 +766,7 @@ class Recorder {
   }
   PairwiseArgHandler BeginPairwise(mp::expr::Kind k, int n) {
     enter("BeginPairwise");
-    line("BeginPairwise", I((int)k) + " " + I(n));
+    ln("BeginPairwise").i((int)k).i(n);
     return begin("BeginPairwise", 'L', (int)k, n, 'N');
   }
   LogicalExpr EndPairwise(PairwiseArgHandler h) { enter("EndPairwise"); return end("EndPairwise", "BeginPairwise", h); }
@@ -765,7 +774,7 @@ class Recorder {
     enter("OnString");
     Expr e = make('S', "OnString", (int)mp::expr::STRING);
     if (record_model) nodes[e.id].str.assign(v.data() ? v.data() : "", v.size());
-    line("OnString", (v.data() ? esc(v) : std::string()) + " " + I((long long)v.size()) + " -> #" + I(e.id));
+    ln("OnString").t(v.data() ? esc(v) : std::string()).i((long long)v.size()).to(e.id);
     return e;
   }
   Expr OnSymbolicIf(LogicalExpr c, Expr t, Expr f) {
@@ -773,7 +782,7 @@ class Recorder {
     int x = use("OnSymbolicIf", c, "L"), y = use("OnSymbolicIf", t, "NCS"), z = use("OnSymbolicIf", f, "NCS");
     Expr e = make('S', "OnSymbolicIf", (int)mp::expr::IFSYM);
     if (record_model) nodes[e.id].args = {x, y, z};
-    line("OnSymbolicIf", "#" + I(x) + " #" + I(y) + " #" + I(z) + " -> #" + I(e.id));
+    ln("OnSymbolicIf").h(x).h(y).h(z).to(e.id);
     return e;
   }
   void EndInput() {
@@ -781,7 +790,7 @@ class Recorder {
     if (!stack_.empty()) err("nest:EndInput with open frame " + std::string(stack_.back().what));
     if (live_ != 0) err("expr:EndInput with " + I(live_) + " pending expression(s)");
     ended = true;
-    line("EndInput", "");
+    ln("EndInput");
   }
 
   // Call after a read that ended with an exception to learn whether the *delivered prefix* was
